@@ -3,6 +3,7 @@ package props
 import (
 	"bytes"
 	"fmt"
+	"math"
 	"os"
 	"path/filepath"
 	"strconv"
@@ -41,8 +42,11 @@ func (t *c19Target) release() {
 	t.later = nil
 }
 
+// c19ListID is the id of the file-backed list of the current case.
+var c19ListID = 1
+
 func c19Build(kind, file string) (*c19Target, error) {
-	fl, err := filterlist.NewFileRuleList(1, file, true)
+	fl, err := filterlist.NewFileRuleList(c19ListID, file, true)
 	if err != nil {
 		return nil, err
 	}
@@ -282,6 +286,7 @@ func c19Run(c *core.Ctx, idx int) {
 		return
 	}
 	kind := []string{"dns", "network"}[idx%2]
+	c19ListID = []int{1, 0, -1, -3, 7, 1 << 20, math.MinInt32 + 1, math.MaxInt32}[c.Rng.Intn(8)]
 	var lines []string
 	if kind == "dns" {
 		l := c02MakeList(c)
